@@ -29,6 +29,9 @@ structure Tables where
   errorClasses : List Bytes
   /-- actions of lines that are not replies (events, error events, log messages, help text lines) -/
   asyncActions : List Bytes
+  /-- actions of the requests a module carries out (`read`, `change`, `do`): the only ones that may
+  change what later requests are answered -/
+  stateActions : List Bytes
 
 /-- what `dispatcher.handle_request(conn, msg)` ends with -/
 inductive DispResult (J : Type) where
